@@ -37,7 +37,7 @@ CLAIMS = {
    note=COMMON_NOTE + "Assumed: io.Pipe semantics (CloseWithError(e!=nil) is seen as e by the reader). Not decided: timeouts while a chunk is being copied.",
    design="3.C07", technique=T),
  "C08": dict(
-   text="Deductive proof: ghost counters cbNew/cbLogout and the per-session ghost loggedOut; invariant cbNew - cbLogout == (session != nil), Logout stub requires !loggedOut and every other callback stub requires a current, not-logged-out session on a connection that is not closed; Close ensures closed, session logged out exactly once, idempotent; handle requires !closed and the command loop leaves once the connection was closed; handleConn ensures closed and cbNew == cbLogout on every exit.",
+   text="Deductive proof: ghost counters cbNew/cbLogout and the per-session ghost loggedOut; invariant cbNew - cbLogout == (session != nil), Logout stub requires !loggedOut and every other callback stub requires a current, not-logged-out session on a connection that is not closed; Close ensures closed, session logged out exactly once, idempotent; handle requires !closed and the command loop leaves once the connection was closed; handleConn ensures closed and cbNew == cbLogout on every exit; the Logout call sites of Close and handleStartTLS lie inside a critical section of Conn.locker (lockset dataflow obligation shared with C20).",
    note=COMMON_NOTE + "Not decided: atomicity of Logout against a concurrent Server.Close; goroutine lifetime.",
    design="3.C08", technique=T),
  "C09": dict(
@@ -57,7 +57,7 @@ CLAIMS = {
    note=COMMON_NOTE + "BOUNDED stand-ins, labelled bounded in the evidence and never counted among the proved obligations (the functions are out of the verifier's reach: regexp engine; no inductive spec of the RFC 5321 grammar was written): (1) the real MAIL/RCPT handlers on every string of length <= 7 (thorough: 8) over 13 syntactically significant characters against a reference Path grammar written from RFC 5321 4.1.2 (valid / definitely invalid / unspecified, one obligation per kind of disagreement; 8 open known findings: leniency about dots, hyphens and the source route); (2) decodeXtext / decodeUTF8AddrXtext against reference decoders from RFC 3461 / 6533 on all strings of <= 5 symbols; (3) the real handlers on MAIL FROM:<a@b> / RCPT TO:<a@b> followed by every concatenation of <= 5 (thorough: 6) tokens out of 16 per command against a reference that computes the expected option values from the extension RFCs (accepted lines compared field by field, malformed ones must be refused; 1 open known finding: RRVS action not examined, pinned by an existing test). NOT decided at all: repeated keywords, extra blanks, time.Parse as RFC 3339 reference, anything beyond the stated bounds.",
    design="3.C11", technique=T + "; loop invariants over map iteration with a visited-set ghost"),
  "C20": dict(
-   text="(a) Ownership obligations, one per access, discharged by the generator's must-hold lockset dataflow over go/ssa (not SMT): Server.listeners/conns only under Server.locker, Conn.closed only under Conn.locker, and the transaction fields dataResult, bdatStatus, recipients, fromReceived, bytesReceived, errCount, binarymime, didAuth, text, lineLimitReader touched only by code that is not reachable from any goroutine other than the command loop (closures started with go, Server.Close, Server.Shutdown are the other thread roots) - a sufficient condition for the absence of data races on those fields. (b) Deductive proof of the sequential kernel: a second Close/Shutdown returns ErrServerClosed, the first one closes the done channel, Close closes every registered connection whatever the listeners return (loop invariant over the map iteration), Serve never returns a temporary Accept error and its back-off stays within [0, 1s] (so no overflow after any run of temporary errors); the BDAT/LMTP delivery goroutines use the values captured at start (call-site and receive-site obligations shared with C04/C13).",
+   text="(a) Ownership obligations, one per access, discharged by the generator's must-hold lockset dataflow over go/ssa (not SMT): Server.listeners/conns only under Server.locker, Conn.closed only under Conn.locker, and the transaction fields dataResult, bdatStatus, recipients, fromReceived, bytesReceived, errCount, binarymime, didAuth, text, lineLimitReader touched only by code that is not reachable from any goroutine other than the command loop (closures started with go, Server.Close, Server.Shutdown are the other thread roots) - a sufficient condition for the absence of data races on those fields; and the calls of Session.Logout and PipeWriter.CloseWithError in Conn.Close and of Session.Logout in handleStartTLS lie inside a critical section of Conn.locker (looking at the session, logging it out and forgetting it is atomic, so overlapping closes log out once). (b) Deductive proof of the sequential kernel: a second Close/Shutdown returns ErrServerClosed, the first one closes the done channel, Close closes every registered connection whatever the listeners return (loop invariant over the map iteration), Serve never returns a temporary Accept error and its back-off stays within [0, 1s] (so no overflow after any run of temporary errors); the BDAT/LMTP delivery goroutines use the values captured at start (call-site and receive-site obligations shared with C04/C13).",
    note=COMMON_NOTE + "NOT decided (honest limits of sequential contracts): deadlock freedom, goroutine leaks, that Shutdown waits for the connections and honours its context, that Close makes a blocked Accept return (listener behaviour), races on fields that have no ownership declaration (session, bdatPipe, helo, conn: guarded in some places and command-loop-owned in others on the unchanged tree, so no uniform rule verifies), atomicity of compound operations under the locks, races inside backend callbacks.",
    design="3.C20", technique=T + "; ownership conditions discharged by a lockset dataflow, sequential contracts by SMT"),
  "C12": dict(
@@ -69,7 +69,7 @@ CLAIMS = {
    note=COMMON_NOTE + "BOUNDED stand-in (labelled bounded, never counted as proved; goroutines and channel timing are outside sequential contracts): the real handleDataLMTP / handleBdat on a connection object without network against a scripted backend under a 2 s watchdog - recipient lists of 1..4 (thorough: 5) entries over two addresses, every sub-multiset and order of SetStatus calls placed before / after / around the reading of the message, return nil or error, backend panic, DATA and BDAT LAST, per-recipient and plain backend: one reply per recipient in order naming it, the k-th status set for an address on its k-th occurrence, the return value where none was set, no hang. NOT decided: goroutine schedules other than the ones the runtime happened to choose; deadlock freedom in general; channel capacity = number of occurrences is not stated as a contract.",
    design="3.C13", technique=T),
  "C14": dict(
-   text="Deductive proof of the encoder kernel: encodeXtext / encodeUTF8AddrXtext / encodeUTF8AddrUnitext emit, per input rune, the RFC 3461 / RFC 6533 form required by the statement (xchar/QCHAR sent as is; every other 7-bit octet escaped: '+' and exactly two hex digits, resp. a \\x{...} form), their output is a single ESMTP value token without CR/LF (loop invariants over a ghost strings.Builder content and character-class predicates), the client hands ENVID to the xtext encoder only inside its 7-bit printable domain and renders each option under the right keyword only if negotiated (shared with C15); server side: the decoded values flow unchanged into the options object (C11 flow).",
+   text="Deductive proof of the encoder kernel: encodeXtext / encodeUTF8AddrXtext / encodeUTF8AddrUnitext emit, per input rune, the RFC 3461 / RFC 6533 form required by the statement (xchar/QCHAR sent as is; every other 7-bit octet escaped: '+' and exactly two hex digits, resp. a \\x{...} form), their output is a single ESMTP value token without CR/LF (loop invariants over a ghost strings.Builder content and character-class predicates), the client hands ENVID to the xtext encoder only inside its 7-bit printable domain, renders each option under the right keyword only if negotiated (shared with C15) and renders every requested flag and every requested-and-offered option (a 'contains' predicate on the line handed to cmd); server side: the decoded values flow unchanged into the options object (C11 flow).",
    note=COMMON_NOTE + "Assumed: strings.Builder, strconv.FormatInt, strings.ToUpper, time.Format stubs. BOUNDED stand-ins (labelled bounded, never counted as proved; the decoders are regexp-driven): decoder(encoder(x)) = x for xtext on every printable 7-bit octet and all strings of length <= 4 over 15 significant characters, for utf-8-addr-xtext and -unitext on every Unicode scalar value of the domain and all strings of length <= 3 over 18 characters, and the RRVS time to the second on 1.7 million timestamps in three zones. Beyond those bounds the inverse property is not decided.",
    design="3.C14", technique=T + "; per-rune loop obligations over a ghost builder"),
  "C15": dict(
@@ -89,7 +89,7 @@ CLAIMS = {
    note=COMMON_NOTE + "Assumed: PrintfLine writes exactly the formatted line. BOUNDED stand-in for the client half (labelled bounded, never counted as proved; textproto and string splitting do the parsing): the reply the real writeError puts on the wire comes back through textproto.ReadResponse + toSMTPErr as an equal SMTPError for 7 codes x 5 enhanced codes x all messages of length <= 5 over {a,5,.,-,space,%,LF} with non-empty untrimmed lines.",
    design="3.C17", technique=T),
  "C19": dict(
-   text="Deductive proof: lineLimitReader.Read tracks the run length written from the property text (loop invariant), refusal only after a run has exceeded the limit, nothing of the too long line handed out, delivered data only with all runs within the limit, sticky refusal, what was read beyond is kept for a reader that lifts the limit; readLine requires the limit to be active at every call site (command loop invariant, AUTH continuation); protocolError counts and gives up after more than three errors; zero-annotation safety sweep (bounds, nil, type assertion, nil map, explicit panic, overflow) over the functions under contract reachable from handleConn.",
+   text="Deductive proof: lineLimitReader.Read tracks the run length written from the property text (loop invariant), refusal only after a run has exceeded the limit, nothing of the too long line handed out, delivered data only with all runs within the limit, sticky refusal, what was read beyond is kept for a reader that lifts the limit; readLine requires the limit to be active at every call site (command loop invariant, AUTH continuation) and hands the command loop only complete lines (what a read error cuts short is dropped) of at most MaxLineLength octets; protocolError counts and gives up after more than three errors; zero-annotation safety sweep (bounds, nil, type assertion, nil map, explicit panic, overflow) over the functions under contract reachable from handleConn.",
    note=COMMON_NOTE + "Assumed: 0 <= MaxLineLength < MaxInt; the transport does not return data together with an error. Parser functions are under the sweep only where they have contracts in this revision. BOUNDED stand-in (labelled bounded, never counted as proved; the stack above the limiter is library code): MAIL lines of 1990..2010, 3000 and 5000 octets on the real server stack under eight segmentations: within the limit served, more than one octet over it never handed to the backend, answered 500, connection closed.",
    design="3.C19", technique=T),
 }
